@@ -159,7 +159,14 @@ func (pool *TxPool) delTx(tx *types.Transaction) {
 	// delete indexes of sub transactions in box transaction
 	if tx.Type() == params.BoxTx {
 		for _, subTx := range getSubTxs(tx) {
-			delete(pool.hashIndexMap, subTx.Hash())
+			subHash := subTx.Hash()
+			// the sub tx may be pooled on its own (or inside another box) while this box is not:
+			// it is consumed together with the box, so clear the slot its hash points at too
+			if index, ok := pool.hashIndexMap[subHash]; ok && pool.txs[index] != nil {
+				pool.txs[index] = nil
+				txPoolTotalNumberCounter.Dec(1)
+			}
+			delete(pool.hashIndexMap, subHash)
 		}
 	}
 }
